@@ -1,6 +1,5 @@
 //! C13 drop exactly once on non-panicking paths; C14 panicking closures.
 
-use super::config::value_fail;
 use super::*;
 use crate::run::term_supported;
 
@@ -56,11 +55,7 @@ fn check_c13(case: &Case) -> Verdict {
         v.fail = Some(f);
         return v;
     }
-    // the run itself must have been a proper one (a wrong result could hide a "compensating" leak)
-    if let Some(f) = value_fail(case, &r, &m) {
-        v.fail = Some(f);
-        return v;
-    }
+    // (the value is not part of this property: a wrong result with correct drop accounting is C01..C07's business)
     if r.term.is_short_circuit() {
         let consumed = r.log.iter().filter(|e| e.kind == Kind::Stage && e.stage == 0).count();
         if consumed < m.src.len() && !case.chain.is_empty() {
